@@ -29,10 +29,11 @@ Definition escq_byte (c : byte) : bytes :=
   else [c].
 Definition escape_quotes (s : bytes) : bytes := flat_map escq_byte s.
 
-(* strconv.Quote as fmt's %q applies it (ContentDisposition.string), byte-wise:
-   exact for ASCII; bytes >= 0x80 are passed through, which is what Quote does for valid
-   UTF-8 encodings of printable runes (the harness emits only such names as cases; other
-   non-ASCII names are judged by the Go oracle alone). *)
+(* strconv.Quote as fmt's %q applies it (ContentDisposition.string).  ASCII bytes: quote_byte.
+   Bytes >= 0x80 are decoded as utf8.DecodeRuneInString does (overlong forms, surrogates and
+   values above U+10FFFF are invalid): an invalid byte becomes \xNN, a rune strconv.IsPrint
+   accepts is copied, any other rune becomes \uXXXX / \UXXXXXXXX.  IsPrint's Unicode tables are
+   stdlib: a Section variable in the proofs, a table supplied by the harness in C17Run. *)
 Definition lowerhex : bytes := bs "0123456789abcdef".
 Definition lhex (n : N) : byte := nth (N.to_nat n) lowerhex "0"%byte.
 Definition is_ctl (c : byte) : bool := (bN c <? 32)%N || (bN c =? 127)%N.
@@ -46,7 +47,54 @@ Definition quote_byte (c : byte) : bytes :=
     | _ => [bslash; "x"%byte; lhex (bN c / 16); lhex (bN c mod 16)]
     end
   else [c].
-Definition go_quote (s : bytes) : bytes := dquote :: flat_map quote_byte s ++ [dquote].
+
+Definition cont_byte (b : byte) : bool := (128 <=? bN b)%N && (bN b <=? 191)%N.
+Definition in_range (lo hi : N) (b : byte) : bool := (lo <=? bN b)%N && (bN b <=? hi)%N.
+Definition low6 (b : byte) : N := (bN b - 128)%N.
+
+(* utf8.DecodeRuneInString on a string whose first byte is >= 0x80:
+   Some (rune, width) or None (RuneError, width 1) *)
+Definition decode_rune (s : bytes) : option (N * nat) :=
+  match s with
+  | [] => None
+  | b0 :: rest =>
+      let x := bN b0 in
+      if (x <? 194)%N then None
+      else if (x <=? 223)%N then
+        match rest with
+        | b1 :: _ => if cont_byte b1 then Some (((x - 192) * 64 + low6 b1)%N, 2) else None
+        | _ => None
+        end
+      else if (x <=? 239)%N then
+        match rest with
+        | b1 :: b2 :: _ =>
+            if in_range (if (x =? 224)%N then 160 else 128) (if (x =? 237)%N then 159 else 191) b1
+               && cont_byte b2
+            then Some ((((x - 224) * 64 + low6 b1) * 64 + low6 b2)%N, 3) else None
+        | _ => None
+        end
+      else if (x <=? 244)%N then
+        match rest with
+        | b1 :: b2 :: b3 :: _ =>
+            if in_range (if (x =? 240)%N then 144 else 128) (if (x =? 244)%N then 143 else 191) b1
+               && cont_byte b2 && cont_byte b3
+            then Some (((((x - 240) * 64 + low6 b1) * 64 + low6 b2) * 64 + low6 b3)%N, 4) else None
+        | _ => None
+        end
+      else None
+  end.
+
+Definition hex4 (r : N) : bytes :=
+  [lhex (r / 4096 mod 16); lhex (r / 256 mod 16); lhex (r / 16 mod 16); lhex (r mod 16)]%N.
+(* a rune >= 0x80 that is not printable *)
+Definition rune_escape (r : N) : bytes :=
+  if (r <? 65536)%N then bslash :: "u"%byte :: hex4 r
+  else bslash :: "U"%byte :: hex4 (r / 65536) ++ hex4 (r mod 65536).
+Definition byte_escape (c : byte) : bytes :=
+  [bslash; "x"%byte; lhex (bN c / 16); lhex (bN c mod 16)].
+
+(* what the server's unquoting makes of an ASCII byte's quoted form *)
+Definition image_byte (c : byte) : bytes := if is_ctl c then quote_byte c else [c].
 
 (* ---- part headers ---- *)
 
@@ -56,10 +104,6 @@ Definition ct_key : bytes := bs "Content-Type".
 (* Writer.CreateFormField *)
 Definition field_cd (name : bytes) : bytes :=
   bs "form-data; name=""" ++ escape_quotes name ++ [dquote].
-
-(* ContentDisposition.string: "; k=%q" per pair *)
-Definition cd_params (kv : list (bytes * bytes)) : bytes :=
-  flat_map (fun p => bs "; " ++ fst p ++ bs "=" ++ go_quote (snd p)) kv.
 
 (* strings.TrimSpace(s) == "" for ASCII content *)
 Definition is_space_byte (c : byte) : bool :=
@@ -75,13 +119,6 @@ Record file_upload := {
   f_first : nat                      (* what the first Read(cbuf[512]) returned *)
 }.
 
-(* createMultipartHeader *)
-Definition file_cd (f : file_upload) : bytes :=
-  bs "form-data" ++
-  cd_params ((match f_param f with [] => [] | n => [(bs "name", n)] end) ++
-             (match f_name f with [] => [] | n => [(bs "filename", n)] end) ++
-             f_extra f).
-
 (* the 512-byte sniffing buffer: cbuf := make([]byte, 512); content.Read(cbuf);
    http.DetectContentType(cbuf) - the whole buffer, zero tail included *)
 Definition pad512 (s : bytes) : bytes :=
@@ -91,9 +128,72 @@ Definition sniff_input (f : file_upload) : bytes :=
   let head := firstn (f_first f) (f_content f) in
   if sniff_whole_buffer then pad512 head else head.
 
-Section Sniff.
-  (* http.DetectContentType: stdlib, supplied by the harness as a table / a variable in proofs *)
-  Variable sniff : bytes -> bytes.
+Section Oracles.
+  Variable is_print : N -> bool.    (* strconv.IsPrint, consulted for runes >= 0x80 *)
+  Variable sniff : bytes -> bytes.  (* http.DetectContentType *)
+
+  Fixpoint quote_body (fuel : nat) (s : bytes) : bytes :=
+    match fuel with
+    | O => []
+    | S f =>
+        match s with
+        | [] => []
+        | c :: r =>
+            if (bN c <? 128)%N then quote_byte c ++ quote_body f r
+            else match decode_rune s with
+                 | Some (rn, w) =>
+                     (if is_print rn then firstn w s else rune_escape rn) ++ quote_body f (skipn w s)
+                 | None => byte_escape c ++ quote_body f r
+                 end
+        end
+    end.
+  Definition go_quote (s : bytes) : bytes := dquote :: quote_body (length s) s ++ [dquote].
+
+  (* the name a server recovers from the quoted form (mime's quoted-string rule keeps a backslash
+     that does not precede a tspecial) *)
+  Fixpoint name_image (fuel : nat) (s : bytes) : bytes :=
+    match fuel with
+    | O => []
+    | S f =>
+        match s with
+        | [] => []
+        | c :: r =>
+            if (bN c <? 128)%N then image_byte c ++ name_image f r
+            else match decode_rune s with
+                 | Some (rn, w) =>
+                     (if is_print rn then firstn w s else rune_escape rn) ++ name_image f (skipn w s)
+                 | None => byte_escape c ++ name_image f r
+                 end
+        end
+    end.
+
+  (* the names %q carries unchanged: no ASCII control byte, valid UTF-8, printable runes *)
+  Fixpoint name_guard (fuel : nat) (s : bytes) : bool :=
+    match fuel with
+    | O => match s with [] => true | _ => false end
+    | S f =>
+        match s with
+        | [] => true
+        | c :: r =>
+            if (bN c <? 128)%N then negb (is_ctl c) && name_guard f r
+            else match decode_rune s with
+                 | Some (rn, w) => is_print rn && name_guard f (skipn w s)
+                 | None => false
+                 end
+        end
+    end.
+  Definition quotable (s : bytes) : bool := name_guard (length s) s.
+
+  (* ContentDisposition.string: "; k=%q" per pair *)
+  Definition cd_params (kv : list (bytes * bytes)) : bytes :=
+    flat_map (fun p => bs "; " ++ fst p ++ bs "=" ++ go_quote (snd p)) kv.
+
+  (* createMultipartHeader *)
+  Definition file_cd (f : file_upload) : bytes :=
+    bs "form-data" ++
+    cd_params ((match f_param f with [] => [] | n => [(bs "name", n)] end) ++
+               (match f_name f with [] => [] | n => [(bs "filename", n)] end) ++
+               f_extra f).
 
   Definition effective_ctype (f : file_upload) : bytes :=
     match f_ctype f with [] => sniff (sniff_input f) | ct => ct end.
@@ -102,7 +202,7 @@ Section Sniff.
   Definition file_headers (f : file_upload) : list (bytes * bytes) :=
     (cd_key, file_cd f) ::
     (if is_blank (effective_ctype f) then [] else [(ct_key, effective_ctype f)]).
-End Sniff.
+End Oracles.
 
 Definition field_headers (name : bytes) : list (bytes * bytes) := [(cd_key, field_cd name)].
 
@@ -128,13 +228,18 @@ Definition render_multipart (b : bytes) (ps : list mpart) : bytes :=
 
 Definition field_part (kv : bytes * bytes) : mpart :=
   {| p_headers := field_headers (fst kv); p_body := snd kv |}.
-Definition file_part (sniff : bytes -> bytes) (f : file_upload) : mpart :=
-  {| p_headers := file_headers sniff f; p_body := f_content f |}.
+Definition file_part (is_print : N -> bool) (sniff : bytes -> bytes) (f : file_upload) : mpart :=
+  {| p_headers := file_headers is_print sniff f; p_body := f_content f |}.
+
+(* writeMultipartField (/repo): a field name with a control byte other than TAB is refused
+   (exactly the bytes net/textproto's validHeaderValueByte rejects) *)
+Definition field_name_ok (s : bytes) : bool :=
+  forallb (fun c => negb (is_ctl c) || beqb c x09) s.
 
 (* writeMultiPart: the fields, then the files in order *)
-Definition multipart_body (sniff : bytes -> bytes) (b : bytes)
+Definition multipart_body (is_print : N -> bool) (sniff : bytes -> bytes) (b : bytes)
            (fields : list (bytes * bytes)) (files : list file_upload) : bytes :=
-  render_multipart b (map field_part fields ++ map (file_part sniff) files).
+  render_multipart b (map field_part fields ++ map (file_part is_print sniff) files).
 
 (* ---- boundary ---- *)
 
